@@ -126,6 +126,10 @@ class BackoffMessages {
             break;
         }
       }
+      // Messages that sort after the last record have nobody to receive them either: these blanks extend right too.
+      for (; current_ != allocated_; current_ += entry_size_) {
+        for (const WordIndex *w = reinterpret_cast<const WordIndex *>(current_); w != reinterpret_cast<const WordIndex *>(current_) + order; ++w, ++extend_out) *extend_out = *w;
+      }
       // Now this is a list of blanks that extend right.
       entry_size_ = sizeof(WordIndex) * order;
       Resize(sizeof(WordIndex) * (extend_out - (const WordIndex*)backing_.get()));
